@@ -9,6 +9,7 @@ ASSUME = [
     "foreign tokens (zeros, other collection's token, a blob id, the HEAD commit id, non-hex, non-ASCII, URL) must get an error status; any status >= 400 is accepted",
     "every report is sent twice in a row (the answer must not depend on having been asked before); one configuration models a client holding on to a single token (only reports for the oldest token between writes)",
     "requests without DAV:limit",
+    "the first configuration also deletes the collection and makes it again at the same URL (tokens of the earlier incarnation are forgotten by the harness, the new one starts from the empty token)",
 ]
 
 
@@ -18,7 +19,7 @@ def configs(tier):
     bodies = {"cal": ["X", "X2", "Z"], "ab": ["K"], "c2": []}
     props = {"cal": {"displayname": ["d1"]}}
     out = [
-        Config(front="wsgi", backend="tree", prefix="/", features=feats, names=names, bodies=bodies, props=props, oracles=set()),
+        Config(front="wsgi", backend="tree", prefix="/", features=feats | {"recreate"}, names=names, bodies=bodies, props=props, oracles=set()),
         Config(front="aio", backend="bare", prefix="/dav/", features=feats, names=names, bodies=bodies, props=props, oracles=set()),
     ]
     out.append(Config(front="wsgi", backend="tree", prefix="/", features={"sync", "sync-held", "restart"}, names=names, bodies=bodies, props=props, oracles=set(), label="tree/wsgi+held-token"))
@@ -143,6 +144,12 @@ def run(tier, workers=None):
     def depth_of(cfg):
         return (3, None) if tier == "quick" else (6, 2500)
 
-    return e1common.run_configs("C07", tier, configs(tier), depth_of, workers=workers, extra=lambda rep: overlap_phase(rep, workers), assumptions=ASSUME + [
+    def seeds(cfg):
+        # non-initial start states: a collection that had members, was deleted and made again at the same URL
+        if "recreate" not in cfg.features:
+            return []
+        return [[("put", "cal", "a.ics", "X"), ("delcoll", "cal"), ("mkcalendar", "cal")], [("put", "cal", "a.ics", "X"), ("put", "cal", "b.ics", "Z"), ("delcoll", "cal"), ("mkcalendar", "cal"), ("put", "cal", "b.ics", "Z")]]
+
+    return e1common.run_configs("C07", tier, configs(tier), depth_of, workers=workers, seeds=seeds, extra=lambda rep: overlap_phase(rep, workers), assumptions=ASSUME + [
         "overlap phase (E5): one write (create, replace, delete) handled to completion at every suspension point of a sync-collection report in the single-process server; replica = old replica + report + next sync must equal the collection",
     ])
